@@ -133,3 +133,19 @@ impl<const ROUNDS: usize> State<ROUNDS> {
         write_u32v_le(&mut output[16..32], &self.state[12..16]);
     }
 }
+
+// verification-only hooks (off by default)
+#[cfg(feature = "verif-hooks")]
+#[allow(dead_code)]
+impl<const ROUNDS: usize> State<ROUNDS> {
+    /// (verification hook) set the two counter words (64 bits counter variant)
+    pub(crate) fn verif_set_counter64(&mut self, counter: u64) {
+        self.state[12] = counter as u32;
+        self.state[13] = (counter >> 32) as u32;
+    }
+
+    /// (verification hook) read the two first words of the last row
+    pub(crate) fn verif_counter64(&self) -> u64 {
+        (self.state[12] as u64) | ((self.state[13] as u64) << 32)
+    }
+}
